@@ -34,6 +34,9 @@ PathTab ==
    prl  |-> [text |-> "/rl",          segs |-> <<Lit("rl")>>],
    pr1  |-> [text |-> "/r1",          segs |-> <<Lit("r1")>>],
    pr2  |-> [text |-> "/r2",          segs |-> <<Lit("r2")>>],
+   pcats |-> [text |-> "/cats",       segs |-> <<Lit("cats")>>],
+   pdogs |-> [text |-> "/dogs",       segs |-> <<Lit("dogs")>>],
+   pru   |-> [text |-> "/ru",         segs |-> <<Lit("ru")>>],
    pdm  |-> [text |-> "/dm",          segs |-> <<Lit("dm")>>],
    pdr  |-> [text |-> "/dr",          segs |-> <<Lit("dr")>>],
    prb  |-> [text |-> "/rb",          segs |-> <<Lit("rb")>>],
